@@ -41,6 +41,8 @@ def do_call(obj, call):
             elif o[0] == "tell":
                 r = obj.tell()
         return r
+    if op == "range":
+        return obj.range(call[1], call[2], call[3])
     if op == "open":
         return b""
     if op == "attr":
@@ -77,6 +79,15 @@ def main():
     if "raises" in exp:
         print(f"MISMATCH returned normally (expected {exp['raises']})")
         return 1
+    if "spec_classes" in exp:
+        # result: (sub-cluster type, count) of a range starting at sc_from
+        t, c = res
+        name = getattr(t, "name", str(t))
+        cls = 3 if "COMPRESSED" in name else 1 if "ZERO" in name else 2 if "NORMAL" in name else 0
+        lo = exp["sc_from"]
+        ok = c >= 1 and lo + c <= 32 and all(exp["spec_classes"][k] == cls for k in range(lo, min(lo + max(c, 0), 32)))
+        print(f"{'MATCH' if ok else 'MISMATCH'} range type={name} count={c} from={lo} spec={exp['spec_classes']}")
+        return 0 if ok else 1
     if "value" in exp:
         ok = res == exp["value"] or (isinstance(res, (bytes, bytearray)) and res.hex() == exp["value"])
         print(f"{'MATCH' if ok else 'MISMATCH'} value {res!r} expected {exp['value']!r}")
